@@ -27,7 +27,7 @@ def run(ctx, rep):
     rch = rep.rule("chain", "file -> lines (read().splitlines(), utf-8-sig) -> framing -> section route -> dispatcher -> builders: every link "
                             "hands the lines on unchanged", floor=10)
     from .chain import check_chain
-    check_chain(ctx, rch, "instrument", strict=True)
+    check_chain(ctx, rch, "instrument", strict=True, recognisers=("chartparse.instrument.NoteEvent.ParsedData",))
     # "end timestamp is the tempo-map time of the end tick": the query itself (C01 P1/P4, C11 index)
     T = N.T
     rq = rep.rule("query", "Q = governing event's time + us(sec(offset)); index function guards + scan; seconds formula", floor=5)
